@@ -410,6 +410,12 @@ func (k *c02Checker) roundTrip(al align.Alignment, r rows, vi int) {
 	if !k.call("write", v, class, payload, func() { text = c02Write(v, al) }) {
 		return
 	}
+	// the original is compared with what is read back: it must still be the original after the writer ran
+	// (the next configuration writes the same object)
+	if now := readRows(al); !now.equal(r) {
+		k.viol("write", v, "original-changed-by-the-writer", class, fmt.Sprintf("after writing, the alignment holds [%s], it held [%s]", now, r), payload)
+		return
+	}
 	var got align.Alignment
 	var err error
 	ok := true
@@ -1274,6 +1280,16 @@ func c02Tasks(tier string) []mc.Task {
 				c02NameCases(c, nm)
 				c02Check(c, c02Case{Kind: "rt", Rows: rows{{"r0", "ACGT"}, {nm, "AC-T"}, {nm + "2", "TTGA"}}})
 			}
+		}
+	})
+	// (c'') two names of one alignment that a careless comparison takes for the same: equal up to case, one a
+	// prefix of the other, one the other's automatic duplicate name
+	add("names#near-pairs", func(c *mc.Ctx) {
+		for _, p := range [][2]string{{"seqA", "SEQA"}, {"a", "A"}, {"ab", "aB"}, {"x1", "X1"}, {"Aa", "aA"}, {"abc", "ab"}, {"ab", "abc"}, {"s_1", "s_10"},
+			{"n", "n_0001"}, {"n_0001", "n"}, {"taxon", "Taxon"}, {"e", "E"}} {
+			c02Check(c, c02Case{Kind: "rt", Rows: rows{{p[0], "ACGT"}, {p[1], "AC-T"}}})
+			c02Check(c, c02Case{Kind: "rt", Rows: rows{{"r0", "TTGA"}, {p[0], "ACGT"}, {p[1], "AC-T"}}})
+			c02Check(c, c02Case{Kind: "rt", Rows: rows{{p[0], "LQEK"}, {"mid", "LQ-K"}, {p[1], "LKEK"}}})
 		}
 	})
 	// (c) names
